@@ -1,4 +1,5 @@
 import NomtModel.Store.Placement
+import NomtModel.Store.PlacementAbs
 import NomtModel.Props.C04
 /-!
 # C17 — The previous durable image stays intact until the switch-over
@@ -81,5 +82,75 @@ example :
     (pageCheck "ln" #[0, 1, 4] 3 {} { kind := "Write", file := "ln", offset := 5 * PAGE, len := PAGE, site := "io.send" }).toBool = true ∧
     (pageCheck "ln" #[0, 1, 4] 3 {} { kind := "Write", file := "ln", offset := 1 * PAGE, len := PAGE, site := "io.send" }).toBool = false := by
   refine ⟨?_, ?_, ?_⟩ <;> simp [pageCheck, PAGE, Except.toBool]
+
+/-! ## Link to the hypothesis of the crash theorem (`Store/PlacementAbs.lean`)
+
+`absEv` abstracts a concrete trace event to an event of the abstract disk of C04 (page writes of `ln` / `bbn` / `ht`
+↦ `Eff.page f (offset / PAGE) _`, fsyncs ↦ `Ev.fsync`); `markReach lnM bbnM lnB bbnB f pn` := "the independent decoder
+marks page `pn` of `f` as node / overflow page / free-list page (marks 1, 2, 3) and `pn` is below the old frontier";
+`preMeta tr` is the part of the trace before the write of the meta page. -/
+section link
+open NomtDisk
+variable {Content MetaRec WalRec LogRec TreeAbs : Type}
+
+/-- T17.4 **monitor acceptance ⇒ `EvPre`** (whole trace): if `checkPlacement` accepts (pre-image, trace), then with the
+meta and the marks it decoded from the pre-image, for EVERY disk model whose `reach` of the old meta is covered by
+those marks, the abstraction of EVERY pre-switch-over event is an `EvPre` event — i.e. the page-write and fsync part
+of hypothesis `hpre` of T4.1 / T4.2 holds for the real trace. -/
+theorem T17_4_monitor_implies_AllowedPre (img : Image) (tr : List IoEv) (st : PlacementStats)
+    (h : checkPlacement img tr = .ok st) :
+    ∃ m x lnM bbnM, imageMeta img = .ok m ∧ wfDetailM img = .ok (x, lnM, bbnM) ∧
+      ∀ (P : Params Content MetaRec WalRec TreeAbs) (d0 : Disk Content MetaRec WalRec LogRec),
+        (∀ f pn, P.reach d0.mt f pn → markReach lnM bbnM m.lnBump m.bbnBump f pn) →
+        ∀ (content : IoEv → Content), ∀ ev ∈ (preMeta tr).filterMap (absEv content), EvPre P d0 ev := by
+  obtain ⟨m, x, lnM, bbnM, h1, h2, h3⟩ := checkPlacement_ok img tr st h
+  exact ⟨m, x, lnM, bbnM, h1, h2, fun P d0 hreach content =>
+    go_ok_evPre P d0 img m lnM bbnM hreach content tr {} st h3⟩
+
+/-- T17.4a (one event): an accepted pre-switch-over event abstracts to an `EvPre` event — for a page write of `ln` /
+`bbn` that is `AllowedPre`: the page is not reached by the old meta —; its abstraction is never a hash-table page
+write; and it is never an unlink. -/
+theorem T17_4a_event_implies_AllowedPre (P : Params Content MetaRec WalRec TreeAbs)
+    (d0 : Disk Content MetaRec WalRec LogRec) (lnM bbnM : Array UInt8) (lnB bbnB lnS bbnS : Nat)
+    (hreach : ∀ f pn, P.reach d0.mt f pn → markReach lnM bbnM lnB bbnB f pn)
+    (content : IoEv → Content) (st st' : PlacementStats) (e : IoEv)
+    (h : checkEv lnM bbnM lnB bbnB lnS bbnS st e = .ok st') :
+    (∀ eff, absEv content e = some (Ev.eff eff) → AllowedPre P d0 eff) ∧
+    (∀ pn c, absEv (MetaRec := MetaRec) (WalRec := WalRec) (LogRec := LogRec) content e
+        ≠ some (Ev.eff (.page File.fHt pn c))) ∧
+    e.kind ≠ "Unlink" := by
+  have key := checkEv_ok_evPre P d0 lnM bbnM lnB bbnB lnS bbnS hreach content st st' e h
+  refine ⟨fun eff hab => key _ hab, ?_, ?_⟩
+  · intro pn c hab
+    have h1 : AllowedPre P d0 (.page File.fHt pn c) := key _ hab
+    rcases h1.1 with h2 | h2 <;> cases h2
+  · intro hk
+    obtain ⟨msg, hm⟩ := T17_3_unlink_rejected lnM bbnM lnB bbnB lnS bbnS st e hk
+    rw [hm] at h; cases h
+
+/-- non-vacuity of T17.4: the tiny trace `ToyTrace.tr` (write the free page 2, write beyond the frontier, fsync, then
+the switch-over followed by a table write) is accepted; its pre-switch-over part abstracts to two page writes and an
+fsync, and these are `EvPre` events of the disk model instantiated with the decoder's marks (`markParams`). -/
+example :
+    (checkPlacement.go ToyTrace.img ToyTrace.m ToyTrace.lnM ToyTrace.bbnM ToyTrace.tr {}).toBool = true ∧
+    ToyTrace.absTr = [Ev.eff (.page File.fLn 2 0), Ev.eff (.page File.fLn 5 0), Ev.fsync File.fLn] ∧
+    (∀ ev ∈ ToyTrace.absTr, EvPre (markParams Nat) ToyTrace.d0 ev) := by
+  refine ⟨ToyTrace.accepted, ToyTrace.abstraction, ?_⟩
+  cases hgo : checkPlacement.go ToyTrace.img ToyTrace.m ToyTrace.lnM ToyTrace.bbnM ToyTrace.tr {} with
+  | error msg => have := ToyTrace.accepted; rw [hgo] at this; cases this
+  | ok st' =>
+    exact go_ok_evPre (markParams Nat) ToyTrace.d0 ToyTrace.img ToyTrace.m ToyTrace.lnM ToyTrace.bbnM
+      (fun f pn hr => hr) (fun _ => 0) ToyTrace.tr {} st' hgo
+
+/-- … and a write to the leaf page 1 is rejected by the monitor and is not `AllowedPre` in that model. -/
+example :
+    (checkEv ToyTrace.lnM ToyTrace.bbnM 3 1 0 0 {}
+      { kind := "Write", file := "ln", offset := 1 * PAGE, len := PAGE, site := "io.send" }).toBool = false ∧
+    ¬ AllowedPre (markParams Nat) ToyTrace.d0 (.page File.fLn 1 0) := by
+  refine ⟨by decide, ?_⟩
+  intro h
+  exact h.2 (Or.inl ⟨rfl, by decide, Or.inl (by decide)⟩)
+
+end link
 
 end Nomt.C17
